@@ -17,8 +17,8 @@ from models import lin
 ID = "C12"
 ENGINE = "threadsim"
 LEVEL = "exploration"
-TIERS = {"quick": {"runs": 40000, "timeout": 900}, "thorough": {"runs": 1200000, "timeout": 7200,
-                                                               "lane_timeout": 1200}}
+TIERS = {"quick": {"runs": 40000, "timeout": 3600, "lane_timeout": 1800}, "thorough": {"runs": 1200000, "timeout": 21600,
+                                                               "lane_timeout": 10800}}
 EST_STEPS = [80, 200, 500]
 P_OPCODE = 0.15
 MAX_STEPS = 20000
